@@ -118,6 +118,8 @@ def _cbfam(fn, what, quick, **kw):
             kw2 = dict(kw)
             if fn == "c04_step" and (wt, n) == ("time", 2):
                 kw2.update(mem_gb=30, timeout=1800)  # ran out of 12 GB when validated
+            if fn == "c04_step" and (wt, n) == ("time", 1):
+                kw2.update(timeout=1200)  # the long pole (~500 s): a larger timeout also schedules it first
             out.append(_cb(f"{fn}_{wt}_n{n}", f"{what} [{wt}-based window, {n} calls already in the window]", CB_BOUND, tiers=tiers, **kw2))
     return out
 Q_ALL = {("count", 0), ("count", 1), ("count", 2), ("count", 3), ("time", 0), ("time", 1)}
